@@ -188,6 +188,43 @@ pub fn build(kind: u64, lay: &[(u64, u64)]) -> Built {
         let regs = arcs.iter().map(|a| Arc::as_ptr(a) as *const u8).collect();
         let mem = if arcs.is_empty() {
             GuestMemoryMmap::<()>::new()
+        } else if kind == 0 && lay.len() >= 2 {
+            // C02 quantifies over "any collection of regions": reach the layout through the collection's own
+            // mutation API as well, not only through from_regions.  (a) if some unmapped address has at least
+            // two regions starting above it, build WITH a one-byte decoy region there and remove it again;
+            // (b) otherwise start from the first region and insert the others in reverse order.
+            let mut sorted: Vec<(u64, u64)> = lay.to_vec();
+            sorted.sort();
+            let mut hole: Option<u64> = None;
+            let mut cand: Vec<u64> = vec![0];
+            cand.extend(sorted.iter().filter_map(|&(s0, l0)| s0.checked_add(l0)));
+            for h in cand {
+                let free = !sorted.iter().any(|&(s0, l0)| s0 <= h && h - s0 < l0);
+                let above = sorted.iter().filter(|&&(s0, _)| s0 > h).count();
+                if free && above >= 2 {
+                    hole = Some(h);
+                    break;
+                }
+            }
+            match hole {
+                Some(h) => {
+                    let decoy = Arc::new(
+                        GuestRegionMmap::new(MmapRegion::<()>::new(1).expect("mmap"), GuestAddress(h)).expect("decoy"),
+                    );
+                    let mut all = arcs.clone();
+                    all.push(decoy);
+                    all.sort_by_key(|a| a.start_addr());
+                    let with = GuestMemoryMmap::from_arc_regions(all).expect("from_arc_regions+decoy");
+                    with.remove_region(GuestAddress(h), 1).expect("remove decoy").0
+                }
+                None => {
+                    let mut m = GuestMemoryMmap::from_arc_regions(vec![arcs[0].clone()]).expect("from_arc_regions");
+                    for a in arcs[1..].iter().rev() {
+                        m = m.insert_region(a.clone()).expect("insert_region");
+                    }
+                    m
+                }
+            }
         } else {
             GuestMemoryMmap::from_arc_regions(arcs.clone()).expect("from_arc_regions")
         };
